@@ -73,6 +73,32 @@ CLAIMED = {
     design_ref='DESIGN.md section 4, C17',
     note='SQLite DDL semantics; assumed contracts of PredicateSql / UseFlagsAsParameters / dialect methods; run-sequence behaviour bounded.',
     technique='contract-based deductive verification (Python-AST VCs, z3/cvc5)'),
+  'C07': dict(
+    category='other',
+    text='Relational bounded contract: every catalogue schema under permutations of rules / conjuncts / disjuncts and '
+         'consistent renamings of variables and predicates must satisfy its original spec comprehension; aggregate UDFs '
+         'under contract over every arrival order; run-time contracts on SortUnnestings, AllocateVar/AllocateTable, '
+         'PredicateSql and DisambiguateCombineVariables (names unique across the compilation).',
+    design_ref='DESIGN.md section 4, C07',
+    note='bounded: finite catalogue x sampled databases; commutativity of SQL joins/UNION ALL assumed.',
+    technique='contracts on the real functions executed natively (bounded stand-in) + relational schema contracts'),
+  'C08': dict(
+    category='other',
+    text='OkInjection / NoInject / ForceWith decision functions proved (shared with C18); RunInjections and TranslateTable '
+         'under run-time contract; every catalogue schema x assignments of @NoInject/@With/@NoWith/@Ground to its concrete '
+         'intermediates must satisfy the original spec; the SQL text must change with the annotation.',
+    design_ref='DESIGN.md section 4, C08',
+    note='bounded for the relational part; InjectStructure has no semantic contract.',
+    technique='contract-based deductive verification of the decision functions + bounded relational schema contracts'),
+  'C11': dict(
+    category='other',
+    text='DisjunctiveNormalForm proved structurally (PropositionToDNF case split, DisjunctsToDNF length = sum of the '
+         'alternatives, ConjunctsToDNF = ConjunctionOfDnfs of the parts, ConjunctionOfDnfs length = product); multiplicity '
+         'reading and position-wise clauses bounded; each documented sugar pair is a schema with one shared spec; '
+         'InlinePredicateValues and HeadToSelect under run-time contract.',
+    design_ref='DESIGN.md section 4, C11',
+    note='bounded for the relational part; proposition trees abstracted by uninterpreted observers (is_conj, conj_of, ...).',
+    technique='contract-based deductive verification (Python-AST VCs, z3/cvc5) + bounded schema contracts'),
 }
 NA = {
   'C05': 'no contract within reach: needs a declarative typing judgement and a soundness argument linking inferred signatures to run-time values; the only available oracle would be a second type checker (different technique). Unification core is decided under C16.',
